@@ -1847,7 +1847,49 @@ struct FileOpts
 {
   std::string tot, sub;
   bool recompute = true;
+  bool call_setter = true; // false: set_recompute_sensitivity is not called (the member keeps the value it has)
 };
+
+// For the `hsetup` line of the model: are the subsets balanced, and the sensitivity viewgrams of every subset — counted with a projector
+// pair of its own, set up for the geometry and image of the configuration (independent of the objective function object).
+struct SensSubsets
+{
+  bool ok = false, balanced = true;
+  std::vector<std::vector<int>> ids;
+};
+
+static SensSubsets
+sens_subsets(const Case& k, bool same_proj, int n)
+{
+  SensSubsets r;
+  r.ok = guarded([&] {
+    shared_ptr<ProjectorByBinPair> aux = make_pair_with_symmetries(k.c.symflags);
+    aux->set_up(k.g.pdi, k.image);
+    const DataSymmetriesForViewSegmentNumbers& sy = *aux->get_symmetries_used();
+    std::vector<long> counts(n, 0);
+    for (int seg = -k.maxseg_eff; seg <= k.maxseg_eff; ++seg)
+      for (int view = k.g.pdi->get_min_view_num(); view <= k.g.pdi->get_max_view_num(); ++view)
+        {
+          ViewSegmentNumbers vs(view, seg);
+          sy.find_basic_view_segment_numbers(vs);
+          counts[(vs.view_num() - k.g.pdi->get_min_view_num()) % n]++;
+        }
+    for (int s = 0; s < n; ++s)
+      r.balanced = r.balanced && counts[s] == counts[0];
+    const int tofmax_req = k.c.maxtof >= 0 ? k.c.maxtof : k.tofmax_data;
+    const Geo& gs = same_proj ? k.g : k.gs;
+    shared_ptr<ProjectorByBinPair> p2;
+    if (!same_proj)
+      {
+        p2 = make_pair_with_symmetries(k.c.symflags);
+        p2->set_up(k.gs.pdi, k.image);
+      }
+    const DataSymmetriesForViewSegmentNumbers& ssym = same_proj ? sy : *p2->get_symmetries_used();
+    for (int s = 0; s < n; ++s)
+      r.ids.push_back(subset_viewgrams(gs, ssym, k.maxseg_eff, same_proj ? tofmax_req : 0, s, n));
+  });
+  return r;
+}
 
 static void
 configure_all(Obj& obj, const Case& k, int n, const FileOpts& f)
@@ -1858,7 +1900,8 @@ configure_all(Obj& obj, const Case& k, int n, const FileOpts& f)
   if (!f.sub.empty())
     obj.set_subsensitivity_filenames(f.sub);
   obj.set_sensitivity_filename(f.tot);
-  obj.set_recompute_sensitivity(f.recompute);
+  if (f.call_setter)
+    obj.set_recompute_sensitivity(f.recompute);
 }
 
 static void
@@ -1977,6 +2020,7 @@ run_reuse(Out& o, const Case& base, const Case* other, vh::Rng& rng, int case_id
   bool prev_accepted = false, prev_wrote = false;
   std::map<std::string, long> dummy_hist;
   std::string story;
+  o.line("hnew", "ok");
 
   for (int st = 0; st < nstages; ++st)
     {
@@ -2088,6 +2132,7 @@ run_reuse(Out& o, const Case& base, const Case* other, vh::Rng& rng, int case_id
       // file options of this stage
       FileOpts want = fo;
       want.recompute = recompute;
+      want.call_setter = true;
       if (recompute && (st == 0 ? rng.coin() : rng.range(0, 2) == 0))
         {
           if (cur.c.use_subset_sens)
@@ -2097,6 +2142,11 @@ run_reuse(Out& o, const Case& base, const Case* other, vh::Rng& rng, int case_id
         }
       if (!full && rng.coin())
         full = true;
+      // a new object whose recompute_sensitivity is never set: without file names set_up decides to compute (and leaves the member on)
+      if (st == 0 && want.tot.empty() && want.sub.empty() && rng.coin())
+        want.call_setter = false;
+      if (st > 0 && !full)
+        want.call_setter = H->get_recompute_sensitivity() != want.recompute;
       if (full)
         {
           if (st > 0 && what != "read-back" && what != "read-back+proj_data")
@@ -2111,7 +2161,8 @@ run_reuse(Out& o, const Case& base, const Case* other, vh::Rng& rng, int case_id
             H->set_subsensitivity_filenames(want.sub);
           if (want.tot != fo.tot)
             H->set_sensitivity_filename(want.tot);
-          H->set_recompute_sensitivity(want.recompute);
+          if (want.call_setter)
+            H->set_recompute_sensitivity(want.recompute);
         }
       fo = want;
       // the TOF sensitivity switch has no public setter and is left on by an earlier set_up that switched it on
@@ -2146,9 +2197,24 @@ run_reuse(Out& o, const Case& base, const Case* other, vh::Rng& rng, int case_id
         if (H->set_up(target) != Succeeded::yes)
           throw 1;
       });
+      {
+        // the model object goes through the same set_up (`setUpSens` on the state the earlier set_ups left)
+        const SensSubsets ss = sens_subsets(cur, accH ? (!cur.tof || H->get_use_tofsens()) : cur.same_proj, n);
+        if (ss.ok)
+          {
+            std::string op = std::string("hsetup ") + (cur.c.use_subset_sens ? "1 " : "0 ") + std::to_string(n) + " "
+                             + (fo.call_setter ? (recompute ? "1" : "0") : "-") + " " + (fo.tot.empty() ? "0" : "1") + " " + (fo.sub.empty() ? "0" : "1") + " "
+                             + (ss.balanced ? "1" : "0") + " " + (accH && cur.tof && !H->get_use_tofsens() ? "1" : "0");
+            for (int s = 0; s < n; ++s)
+              op += std::string(s ? " /" : "") + ids_str(ss.ids[s]);
+            o.line(op, std::string(accH ? "ok " : "refused ") + (H->get_recompute_sensitivity() ? "1" : "0"));
+          }
+      }
       Case twin = cur;
       twin.pair = make_pair_with_symmetries(cur.c.symflags);
       FileOpts fF = fo;
+      if (st > 0)
+        fF.call_setter = true;
       if (recompute)
         {
           if (!fF.tot.empty())
@@ -2206,6 +2272,10 @@ run_reuse(Out& o, const Case& base, const Case* other, vh::Rng& rng, int case_id
       o.rec = &recH;
       check_object(o, cur, H.p, n, c0, recompute, hist);
       o.rec = nullptr;
+      // what the object holds now, against the state of the model object
+      for (int s = 0; s < n; ++s)
+        o.line("hsub " + std::to_string(s), hexvec(to_vec(H->get_subset_sensitivity(s))));
+      o.line("htot", hexvec(to_vec(H->get_sensitivity())));
 
       // ---- the same on fresh objects, silently
       auto compare_records = [&](const Record& a, const Record& b, const std::string& who) {
